@@ -85,6 +85,7 @@ def nodeEncObs (ts : List String) : String :=
 def decOp (name : String) (b : Bytes) : String :=
   match name with
   | "mptnode" => nodeObs b
+  | "nef" => decObs (nefC Sha256.hash2) (fun _ => none) showNef b
   | "item" => itemObs false b
   | "itemprot" => itemObs true b
   | "witness" => decObs witnessC (fun _ => none) showWitness b
@@ -104,6 +105,7 @@ def decOp (name : String) (b : Bytes) : String :=
 def encOp (name : String) (ts : List String) : String :=
   match name with
   | "mptnode" => nodeEncObs ts
+  | "nef" => encObs (nefC Sha256.hash2) pNef ts
   | "item" => itemEncObs false ts
   | "itemprot" => itemEncObs true ts
   | "witness" => encObs witnessC pWitness ts
